@@ -58,6 +58,9 @@ def Script.default (s : Script) (id : Nat) : Bool :=
 def Script.faulty (s : Script) (ev : Ev) (occ : Nat) : Bool :=
   s.fails.contains (ev.1, ev.2, occ)
 
+/-- The same script without fault injections. -/
+def Script.noFaults (s : Script) : Script := { conds := s.conds, fails := [] }
+
 /-! ### Scoped registry (`StateRegistry`: a map plus an owned parent) -/
 
 abbrev Scope := List (Nat × Nat)
@@ -96,7 +99,10 @@ def incr : Reg → Option Reg
   | m :: r =>
     match m.get? 0 with
     | some v => some (m.put 0 (v + 1) :: r)
-    | none => (incr r).map (m :: ·)
+    | none =>
+      match incr r with
+      | some r' => some (m :: r')
+      | none => none
 end Reg
 
 def Act.apply (ph : Phase) (r : Reg) : Act → Reg
@@ -332,9 +338,9 @@ inductive Stmt where
   | skip
   | atom (o : Op)
   | seq (a b : Stmt)
-  | while (c : Cond) (body : Stmt)
+  | loop (c : Cond) (body : Stmt)
   | ite (c : Cond) (t e : Stmt)
-  | scoped (b : Stmt)                  -- `{ … }` : fresh child scope, always closed again
+  | inScope (b : Stmt)                 -- `{ … }` : fresh child scope, always closed again
 
 /-- `while` of the structured language (no built-in counter). -/
 def whileN (cond : St → St × CRes) (body : St → St × Res) : Nat → St → St × Res
@@ -349,13 +355,13 @@ def srun (s : Script) (fuel : Nat) : Stmt → St → St × Res
   | .skip, σ => (σ, .ok)
   | .atom o, σ => opRun s o σ
   | .seq a b, σ => andThen (srun s fuel a σ) (srun s fuel b)
-  | .while c b, σ => whileN (condEval s c) (srun s fuel b) fuel σ
+  | .loop c b, σ => whileN (condEval s c) (srun s fuel b) fuel σ
   | .ite c t e, σ =>
     match condEval s c σ with
     | (σ1, .val true) => srun s fuel t σ1
     | (σ1, .val false) => srun s fuel e σ1
     | (σ1, .err ph id) => (σ1, .err ph id)
-  | .scoped b, σ =>
+  | .inScope b, σ =>
     match srun s fuel b (push σ) with
     | (σ2, r) => (pop σ2, r)
 
@@ -398,9 +404,9 @@ mutual
   def execProg : Comp → Stmt
     | .leaf id acts => .atom (.prim (.exec, id) acts)
     | .block cs => execProgs cs
-    | .loop c b => .seq (condProg .cinit c) (.while c (.seq (execProg b) (.atom .bump)))
+    | .loop c b => .seq (condProg .cinit c) (.loop c (.seq (execProg b) (.atom .bump)))
     | .branch c t e he => .ite c (execProg t) (if he then execProg e else .skip)
-    | .scope b => .scoped (.seq (initProg b) (.seq (reqProg b) (execProg b)))
+    | .scope b => .inScope (.seq (initProg b) (.seq (reqProg b) (execProg b)))
   def execProgs : Comps → Stmt
     | .nil => .skip
     | .cons c cs => .seq (execProg c) (execProgs cs)
@@ -409,6 +415,72 @@ end
 /-- The structured program a configuration stands for: initialise everything outside scopes,
 check every requirement, then execute. -/
 def prog (c : Comp) : Stmt := .seq (initProg c) (.seq (reqProg c) (execProg c))
+
+/-! ### Vocabulary for the theorems: syntactic side conditions and loop unrolling -/
+
+/-- The state type an action touches. -/
+def Act.key : Act → Nat
+  | .ins _ k _ => k | .set _ k _ => k | .rem _ k => k | .need k => k
+
+/-- `set_value` or `remove`. -/
+def Act.isWrite : Act → Bool
+  | .set _ _ _ => true | .rem _ _ => true | _ => false
+def Act.isRem : Act → Bool
+  | .rem _ _ => true | _ => false
+def Act.isIns : Act → Bool
+  | .ins _ _ _ => true | _ => false
+
+mutual
+  def Cond.ids : Cond → List Nat
+    | .leaf id => [id]
+    | .all cs => cs.ids
+    | .any cs => cs.ids
+    | .not c => c.ids
+  def Conds.ids : Conds → List Nat
+    | .nil => []
+    | .cons c cs => c.ids ++ cs.ids
+end
+
+mutual
+  /-- Every action of every leaf satisfies `A`, every condition satisfies `C`, and (unless `L`)
+  there is no loop. -/
+  def Comp.sat (A : Act → Bool) (C : Cond → Bool) (L : Bool) : Comp → Bool
+    | .leaf _ acts => acts.all A
+    | .block cs => cs.sat A C L
+    | .loop c b => L && C c && b.sat A C L
+    | .branch c t e he => C c && t.sat A C L && (!he || e.sat A C L)
+    | .scope b => b.sat A C L
+  def Comps.sat (A : Act → Bool) (C : Cond → Bool) (L : Bool) : Comps → Bool
+    | .nil => true
+    | .cons c cs => c.sat A C L && cs.sat A C L
+end
+
+def Op.sat (A : Act → Bool) (L : Bool) : Op → Bool
+  | .prim ev acts => ev.1 != .ceval && acts.all A
+  | .counter0 => L
+  | .bump => L
+
+/-- Every atomic statement satisfies `φ`, every tested condition satisfies `C`. -/
+def Stmt.all (φ : Op → Bool) (C : Cond → Bool) : Stmt → Bool
+  | .skip => true
+  | .atom o => φ o
+  | .seq a b => a.all φ C && b.all φ C
+  | .loop c b => C c && b.all φ C
+  | .ite c t e => C c && t.all φ C && e.all φ C
+  | .inScope b => b.all φ C
+
+/-- `Passes cond body n σ σ'`: starting in `σ` the test succeeds and the body completes `n` times
+in a row, then the test fails, leaving `σ'` — i.e. `n` passes and `n + 1` tests. -/
+inductive Passes (cond : St → St × CRes) (body : St → St × Res) : Nat → St → St → Prop where
+  | done {σ σ' : St} : cond σ = (σ', .val false) → Passes cond body 0 σ σ'
+  | pass {n : Nat} {σ σ1 σ2 σ' : St} : cond σ = (σ1, .val true) → body σ1 = (σ2, .ok) →
+      Passes cond body n σ2 σ' → Passes cond body (n + 1) σ σ'
+
+mutual
+  def Comps.append : Comps → Comps → Comps
+    | .nil, ds => ds
+    | .cons c cs, ds => .cons c (cs.append ds)
+end
 
 /-! ### Static event lists (what `init` / `require` visit, in pre-order) -/
 
